@@ -1,0 +1,36 @@
+//go:build verif
+
+package shell_operator
+
+import (
+	"context"
+
+	"github.com/deckhouse/deckhouse/pkg/log"
+
+	klient "github.com/flant/kube-client/client"
+	"github.com/flant/shell-operator/pkg/metric"
+)
+
+// VerifAssemble builds a ShellOperator on the given (fake) kube client with the hooks found in
+// hooksDir, the way assembleShellOperator does, without HTTP servers and webhooks.
+func VerifAssemble(ctx context.Context, client *klient.Client, hooksDir, tempDir string, ms, hms metric.Storage) (*ShellOperator, error) {
+	op := NewShellOperator(ctx, WithLogger(log.NewNop()))
+	op.MetricStorage = ms
+	op.HookMetricStorage = hms
+	op.KubeClient = client
+	op.SetupEventManagers()
+	op.setupHookManagers(hooksDir, tempDir)
+	if err := op.initHookManager(); err != nil {
+		return nil, err
+	}
+	return op, nil
+}
+
+// VerifStart is Start() without the API server and the metrics goroutines.
+func (op *ShellOperator) VerifStart() {
+	op.bootstrapMainQueue(op.TaskQueues)
+	op.TaskQueues.StartMain()
+	op.initAndStartHookQueues()
+	op.ManagerEventsHandler.Start()
+	op.ScheduleManager.Start()
+}
